@@ -14,6 +14,9 @@ import (
 // Contract file: //@ lines in a comment-only Go file.
 
 type Clause struct {
+	When    Expr   // case specialisation: obligation generated from a run with this condition assumed (and folded) at entry
+	WhenSrc string
+	From    []string // derived clause: proved from these other ensures clauses alone (no code)
 	Label   string
 	E       Expr
 	Src     string
@@ -172,8 +175,30 @@ func parseContracts(text string) (c *Contracts, err error) {
 			c.Axioms = append(c.Axioms, &Axiom{Name: lab, E: parseExpr(src, it.line), Src: src, Line: it.line})
 			cur, curLemma = nil, nil
 		case "requires", "ensures", "crash_invariant":
+			var whenSrc string
+			var from []string
+			for {
+				if m := whenRe.FindStringSubmatch(rest); m != nil {
+					whenSrc = m[2]
+					rest = m[1] + " " + m[3]
+					continue
+				}
+				if m := fromRe.FindStringSubmatch(rest); m != nil {
+					for _, f := range strings.Split(m[2], ",") {
+						from = append(from, strings.TrimSpace(f))
+					}
+					rest = m[1] + " " + m[3]
+					continue
+				}
+				break
+			}
+			rest = attrEndRe.ReplaceAllString(rest, "$1:")
 			lab, src := splitLabel(rest)
-			cl := Clause{Label: lab, Src: src, Line: it.line}
+			cl := Clause{Label: lab, Src: src, Line: it.line, From: from}
+			if whenSrc != "" {
+				cl.When = parseExpr(whenSrc, it.line)
+				cl.WhenSrc = whenSrc
+			}
 			if strings.HasSuffix(src, " on_panic") {
 				cl.OnPanic = true
 				src = strings.TrimSuffix(src, " on_panic")
@@ -263,6 +288,10 @@ func splitFirst(s string) (string, string) {
 	}
 	return s, ""
 }
+
+var whenRe = regexp.MustCompile(`^(\w+)\s*\[when\s+([^\]]*)\]\s*(.*)$`)
+var fromRe = regexp.MustCompile(`^(\w+)\s*\[from\s+([^\]]*)\]\s*(.*)$`)
+var attrEndRe = regexp.MustCompile(`^(\w+)\s+:`)
 
 var labelRe = regexp.MustCompile(`^([A-Za-z_][A-Za-z0-9_]*)\s*:([^:].*)$`)
 
